@@ -12,6 +12,10 @@
      op 50      code generic over S: Lengthen<u8> / Shorten<u8> whose result type is S after a round
                 trip: variant 0 append+pop_back, 2 prepend+pop_front, 1 pop_back+append,
                 3 pop_front+prepend, called at length a.   obs: 1 | 0
+                variants 4..8: a caller generic over Concat (4 over the trait, 5 over both lengths), Split (6),
+                Remove (7), Flatten (8) that states exactly the bounds the declarations ask for
+     op 9 variant 7: a GenericArray compared (==) with a NATIVE array of a different length: no such comparison
+                is declared, rejected (the harness samples a <> b only: a same-length impl would be harmless)
      op 40      implementing ArrayLength outside the crate: variant 0 with a foreign ArrayType,
                 1 with the crate's own (public, hidden) ImplEven type; 2: a plain generic use *)
 From GA Require Import Base Codec TypeLevel Sigs SigDecls.
@@ -73,10 +77,12 @@ Definition run_seal (variant : Z) : list Z :=
 Definition run_c12 (case : list Z) : list Z :=
   match case with
   | [op; variant; a; b; ci; c] =>
-    if (1 <=? op) && (op <=? 13) then run_len op variant a b ci c
+    if (op =? 9) && (variant =? 7) then [enc_bool false]
+    else if (1 <=? op) && (op <=? 13) then run_len op variant a b ci c
     else if (op =? 20) || (op =? 21) then run_auto op variant a b
     else if op =? 30 then run_lt a variant
     else if op =? 40 then run_seal variant
+    else if (op =? 50) && (4 <=? variant) then [enc_bool (generic_caller_typechecks variant)]
     else if op =? 50 then [enc_bool (roundtrip_typechecks variant)]
     else [-1]
   | _ => [-1]
